@@ -2,9 +2,13 @@
 """T1v — translate VECTOR method bodies of device_kit (numpy expressions over the flow vector) into Lean.
 
 Regenerated on every check run from the *current* working tree of the repository (DK_REPO, default /repo).
-Output: lean/DK/Gen/Vec.lean.  DK/Lemmas/BridgeVec.lean proves each generated definition equal (pointwise, for every
-horizon `n` and every input) to the hand-written model definition the property theorems are about, so a change of the
-Python source either keeps the bridge provable (algebraically equivalent rewrite) or breaks a proof obligation.
+Output: lean/DK/Gen/Vec/<Group>.lean, one module per source group (`group_of`; the import graph of the groups is the call
+graph of the units) + the umbrella lean/DK/Gen/Vec.lean.  DK/Lemmas/BridgeVec/<Group>.lean proves each generated
+definition equal (pointwise, for every horizon `n` and every input) to the hand-written model definition the property
+theorems are about, so a change of the Python source either keeps the bridge provable (algebraically equivalent
+rewrite) or breaks a proof obligation — of that group and of the groups that call it only (`bridge_module`,
+`t1_vec_fallback_lemmas`: vk/check.py audits each lemma from the module that proves it and turns a property red for an
+untranslatable unit only if the property's `bridge` list has a lemma about that unit or about a unit that calls it).
 
 Denotation.  A numpy value of shape (n,) is an index function `Nat → α` (read at indices `< n`), of shape (n,m) a
 function `Nat → Nat → α`, a Python int / `len(...)` a `Nat`; scalars broadcast.  The translator carries, for every
@@ -75,6 +79,34 @@ FILES = {'Device': 'device.py', 'CDevice': 'cdevice.py', 'SDevice': 'sdevice.py'
          None: 'utils.py'}
 
 
+def group_of(cls, fn, sub):
+  """source group of a unit = the generated module it goes to.  Groups follow the call graph (a group imports the groups
+  its units call), so a changed / untranslatable unit can only break its own group and the groups that call it."""
+  if cls is None: return 'Utils'
+  if cls == 'Device': return 'DeviceCons' if sub else 'Device'
+  if cls == 'SDevice':
+    if sub: return 'SDeviceCons'
+    return 'SDevice' if fn in ('base', 'charge_at', 'charge_at_lossless') else 'SDeviceCost'
+  if cls == 'TDevice': return 'TDevice' if fn in ('_make_t_base', 'r2t') else 'TDeviceCost'
+  if cls in ('HLQuadraticCost', 'ABCCost'): return 'Kernels'
+  if cls in ('IDevice', 'IDevice2'): return 'IDevice'
+  if cls in ('NullFunction', 'ReflectedFunction', 'InnerSumFunction', 'Poly2D', 'Poly2DOffset'): return 'Fn'
+  return cls       # CDevice, GDevice, CDevice2
+
+
+GROUPS = ['Utils', 'Device', 'CDevice', 'SDevice', 'SDeviceCost', 'SDeviceCons', 'DeviceCons', 'Kernels', 'IDevice', 'TDevice',
+          'TDeviceCost', 'Fn', 'GDevice', 'CDevice2']
+
+# bridge lemmas (DK.BridgeVec.<name>) that are not named after exactly one unit: lemma -> the units it is about.
+# Every other audited lemma `DK.BridgeVec.<unit>` is about the unit of that name.
+LEMMA_UNITS = {
+  'Device_constraints': ['Device_constraints_fun0', 'Device_constraints_jac0', 'Device_constraints_fun1', 'Device_constraints_jac1'],
+  'SDevice_constraints_socCons': ['SDevice_constraints_fun0', 'SDevice_constraints_jac0', 'SDevice_constraints_fun1', 'SDevice_constraints_jac1'],
+  'ABCCost_fn': ['ABCCost_call', 'ABCCost_deriv', 'ABCCost_hess'],
+  'TDevice_t_base': ['TDevice_make_t_base'],
+}
+
+
 class U:
   """one whitelisted unit: (class or None for utils.py, function name, optional sub-address inside the function)."""
   def __init__(self, cls, fn, args=None, sub=None, mode='a', lean=None):
@@ -83,6 +115,8 @@ class U:
     self.lean = lean or (base + ('_' + sub if sub else ''))
     self.file = FILES[cls]
     self.key = (cls, fn, sub)
+    self.group = group_of(cls, fn, sub)      # Lean module DK.Gen.Vec.<group> / DK.Lemmas.BridgeVec.<group>
+    self.calls = []                          # lean names of the translated units this one calls (filled by the translation)
     # filled by the translation
     self.ok = False; self.params = []; self.ret = None; self.uses_pow = False; self.uses_cast = False; self.line = 0; self.has_n = False
     self.retlen = None
@@ -737,6 +771,7 @@ class Ctx:
     return self.call_unit(u, e, env, obj)
 
   def call_unit(self, u, e, env, recv):
+    if u.lean not in self.unit.calls: self.unit.calls.append(u.lean)
     if not u.ok: raise Unsupported('callee %s is untranslatable' % u.lean)
     names = [p for p, k in u.params]
     vals = self.kw(e, names, env)
@@ -974,16 +1009,24 @@ Ctx.call = _call
 
 
 # ----------------------------------------------------------------------------------------------- driver
-PRELUDE = """-- GENERATED by vk/translate_vec.py from {src} — do not edit.
+HEADER = """-- GENERATED by vk/translate_vec.py from {src} — do not edit.
 -- source sha256: {sha}
-import DK.Model.Basic
-import DK.Gen.Kernels
-set_option linter.unusedVariables false
+{imports}set_option linter.unusedVariables false
 namespace DK.Gen
 section
 variable {{α : Type}} [Add α] [Sub α] [Mul α] [Div α] [Neg α] [OfNat α 0] [OfNat α 1] [OfNat α 2]
   [LT α] [LE α] [DecidableEq α] [DecidableLT α] [DecidableLE α]
 variable {{ε : Type}} [Sub ε] [OfNat ε 1] [OfNat ε 2]
+"""
+
+PRELUDE = """-- GENERATED by vk/translate_vec.py (fixed text) — do not edit.
+import DK.Model.Basic
+import DK.Gen.Kernels
+set_option linter.unusedVariables false
+namespace DK.Gen
+section
+variable {α : Type} [Add α] [Sub α] [Mul α] [Div α] [Neg α] [OfNat α 0] [OfNat α 1] [OfNat α 2]
+  [LT α] [LE α] [DecidableEq α] [DecidableLT α] [DecidableLE α]
 
 /-! numpy primitives used by the translated bodies (fixed text of the translator) -/
 /-- `np.minimum(a, b)` -/
@@ -996,6 +1039,8 @@ def vabs (x : α) : α := if x < (0 : α) then -x else x
 def sign (x : α) : α := if (0 : α) < x then 1 else if x < (0 : α) then -(1 : α) else 0
 /-- `e ** np.sign(y)`: the exponent is `1`, `-1` or `0` -/
 def sgnPow (e y : α) : α := if (0 : α) < y then e else if y < (0 : α) then (1 : α) / e else 1
+end
+end DK.Gen
 """
 
 
@@ -1135,35 +1180,103 @@ class TU:
 
 
 def translate_all(repo):
+  """returns ({group: lean text}, units, fallback, calls): one generated module per source group."""
   tu = TU(repo)
-  sha = hashlib.sha256(''.join(fn + '\n' + tu.src[fn] for fn in sorted(tu.src)).encode()).hexdigest()[:16]
-  out = [PRELUDE.format(src=', '.join('device_kit/' + f for f in sorted(tu.src)), sha=sha)]
+  body = {g: [] for g in GROUPS}
+  files = {g: set() for g in GROUPS}
   units, fallback = [], []
   for u in UNITS:
     tu.units[u.key] = u
-    u.ok = False
+    u.ok = False; u.calls = []
+    files[u.group].add(u.file)
     qual = (u.cls + '.' if u.cls else 'utils.') + u.fn + ('::' + u.sub if u.sub else '')
     try:
       text = tu.translate(u)
     except Unsupported as ex:
       where = '%s:%d' % (u.file, u.line) if u.line else u.file
-      out.append('-- UNTRANSLATABLE %s (%s): %s\n' % (qual, where, ex))
+      body[u.group].append('-- UNTRANSLATABLE %s (%s): %s\n' % (qual, where, ex))
       fallback.append((u.lean, where, str(ex)))
       continue
     where = '%s:%d' % (u.file, u.line)
-    out.append('/-- `%s` (%s) -/' % (qual, where))
-    out.append(text)
+    body[u.group].append('/-- `%s` (%s) -/' % (qual, where))
+    body[u.group].append(text)
     units.append((u.lean, where))
-  out += ['end', 'end DK.Gen', '']
-  return '\n'.join(out), units, fallback
+  by_lean = {u.lean: u for u in UNITS}
+  texts = {}
+  for g in GROUPS:
+    # a group imports the groups its units call: the import graph of the generated modules is the call graph of the source
+    deps = sorted({by_lean[c].group for u in UNITS if u.group == g for c in u.calls} - {g}, key=GROUPS.index)
+    fs = sorted(files[g] | {by_lean[c].file for u in UNITS if u.group == g for c in u.calls})
+    sha = hashlib.sha256(''.join(fn + '\n' + tu.src[fn] for fn in fs).encode()).hexdigest()[:16]
+    imports = 'import DK.Gen.Vec.Prelude\n' + ''.join('import DK.Gen.Vec.%s\n' % d for d in deps)
+    texts[g] = '\n'.join([HEADER.format(src=', '.join('device_kit/' + f for f in fs), sha=sha, imports=imports)] + body[g] + ['end', 'end DK.Gen', ''])
+  calls = {u.lean: list(u.calls) for u in UNITS}
+  return texts, units, fallback, calls
+
+
+UMBRELLA = """-- GENERATED by vk/translate_vec.py — do not edit.
+-- every generated vector module (one per source group; see vk/translate_vec.py `group_of`)
+import DK.Gen.Vec.Prelude
+"""
+
+
+def callers_closure(calls, name):
+  """`name` and every unit that (transitively) calls it."""
+  out = {name}
+  grew = True
+  while grew:
+    grew = False
+    for u, cs in calls.items():
+      if u not in out and out & set(cs):
+        out.add(u); grew = True
+  return out
+
+
+def bridge_modules():
+  """lemma -> module table of the vector bridge: {'DK.BridgeVec.<lemma>': 'DK.Lemmas.BridgeVec.<Group>'}, read off the
+  Lean sources (so it cannot drift from them)."""
+  d = os.path.join(HERE, '..', 'lean', 'DK', 'Lemmas', 'BridgeVec')
+  out = {}
+  if os.path.isdir(d):
+    for fn in sorted(os.listdir(d)):
+      if fn.endswith('.lean'):
+        for m in re.finditer(r'^theorem\s+(\S+)', open(os.path.join(d, fn)).read(), re.M):
+          out['DK.BridgeVec.' + m.group(1)] = 'DK.Lemmas.BridgeVec.' + fn[:-5]
+  return out
+
+
+def bridge_module(lemma):
+  """the module a bridge lemma is audited from."""
+  if lemma.startswith('DK.BridgeVec.'):
+    return bridge_modules().get(lemma, 'DK.Lemmas.BridgeVec')
+  return 'DK.Lemmas.Bridge'
+
+
+def lemmas_of_units(units_):
+  """the `DK.BridgeVec.*` lemmas that are about one of the given units."""
+  us = set(units_)
+  out = {'DK.BridgeVec.' + u for u in us}
+  out |= {'DK.BridgeVec.' + l for l, xs in LEMMA_UNITS.items() if us & set(xs)}
+  return out
 
 
 def regenerate(repo=None):
   repo = repo or REPO
-  text, units, fallback = translate_all(repo)
-  changed = T1.write_if_changed(os.path.join(GEN, 'Vec.lean'), text)
+  texts, units, fallback, calls = translate_all(repo)
+  changed = T1.write_if_changed(os.path.join(GEN, 'Vec', 'Prelude.lean'), PRELUDE)
+  for g in GROUPS:
+    changed = T1.write_if_changed(os.path.join(GEN, 'Vec', g + '.lean'), texts[g]) or changed
+  changed = T1.write_if_changed(os.path.join(GEN, 'Vec.lean'), UMBRELLA + ''.join('import DK.Gen.Vec.%s\n' % g for g in GROUPS)) or changed
+  # an untranslatable unit concerns the lemmas about it and about every unit that calls it (the callers are themselves
+  # untranslatable — `callee … is untranslatable` — so they are listed too; the closure over the last good call graph
+  # of this run is added for completeness)
+  affected = {}
+  for n, w, why in fallback:
+    affected[n] = sorted(lemmas_of_units(callers_closure(calls, n)))
   return {'changed': changed, 't1_units': ['vec.%s @ %s' % (n, w) for n, w in units],
           't1_fallback_units': ['vec.%s @ %s: %s' % (n, w, why) for n, w, why in fallback],
+          't1_vec_fallback_lemmas': affected,
+          't1_vec_calls': {u: cs for u, cs in calls.items() if cs},
           't1_vec_t2_only': ['%s (%s): %s' % x for x in T2_ONLY]}
 
 
